@@ -17,5 +17,7 @@ def run(chk):
     X.suspend_decision(chk, "C07")
     X.on_task_complete(chk, "C07", want=("C07",))
     X.timer_loop(chk, "C07")
+    from . import misc_contracts
+    misc_contracts.models_transitions(chk, "C07")
     X.resubmitter_total(chk, "C07")
     wrapper_contracts.wrapper_obligations(chk, "C07", want=("C07",))
